@@ -42,6 +42,7 @@ func runC12(c *eng.Ctx) {
 	groupingWaitOnlyWhenACollectorRuns(c)
 	missingShardIsSkippedNotRefused(c)
 	groupKeyOrderIsTheStatementOrder(c)
+	lastTaskDecidedByTheDecrement(c)
 	rowsInsideFirstRowsFamilyRange(c)
 	leafShipsEveryGroup(c)
 	responseErrorAlwaysExamined(c)
